@@ -32,13 +32,38 @@ type spyFS struct {
 	inner fs.FS
 	mu    sync.Mutex
 	opens []string
+	limit int // Open fails beyond this many calls (keeps a runaway recursion finite)
 }
 
 func (s *spyFS) Open(name string) (fs.File, error) {
 	s.mu.Lock()
 	s.opens = append(s.opens, name)
+	n := len(s.opens)
 	s.mu.Unlock()
+	if s.limit > 0 && n > s.limit {
+		return nil, fmt.Errorf("spy: more than %d Open calls", s.limit)
+	}
 	return s.inner.Open(name)
+}
+
+// openBound: with at most k $INCLUDE lines per file and nesting limited to depth 7, at most
+// k + k^2 + ... + k^7 files can be opened.
+func openBound(files map[string]string) int {
+	k := 0
+	for _, t := range files {
+		if n := strings.Count(strings.ToUpper(t), "$INCLUDE"); n > k {
+			k = n
+		}
+	}
+	total, p := 0, 1
+	for d := 1; d <= 7; d++ {
+		p *= k
+		total += p
+		if total > 200000 {
+			return 200000
+		}
+	}
+	return total
 }
 
 func (s *spyFS) Opens() []string {
@@ -83,9 +108,10 @@ func maxLineLen(s string) int {
 // Allocation bound: K0 + C*bytes read + per record (R0 + C*longest line). The constants are about
 // ten times what the unchanged library needs on the generated inputs (see SENSITIVITY.md).
 const (
-	allocK0 = 4 << 20
-	allocC  = 24 << 10 // per input octet: the lexer allocates two 512-octet buffers per token
-	allocR0 = 4 << 10
+	allocK0 = 1 << 20
+	allocC  = 256 // per input octet (observed on the pinned tree: <= 20 on long inputs)
+	allocR0 = 1024
+	allocRL = 32 // per record and octet of the longest line (observed: ~5 for $GENERATE lines)
 )
 
 // runParser feeds files[cfg.File] to a ZoneParser under cfg and applies the safety oracle of
@@ -99,6 +125,8 @@ func runParser(files map[string]string, cfg parserCfg, perRecord func(dns.RR)) (
 		}
 	}
 	spy := &spyFS{inner: m}
+	maxOpens := openBound(files)
+	spy.limit = maxOpens + 1
 
 	type result struct {
 		out  *outcome
@@ -222,7 +250,7 @@ func runParser(files map[string]string, cfg parserCfg, perRecord func(dns.RR)) (
 			}
 		}
 	}
-	bound := uint64(allocK0) + uint64(allocC)*uint64(bytesRead) + uint64(out.N+1)*(uint64(allocR0)+uint64(allocC)*uint64(min(longest, 4096)))
+	bound := uint64(allocK0) + uint64(allocC)*uint64(bytesRead) + uint64(out.N+1)*(uint64(allocR0)+uint64(allocRL)*uint64(min(longest, 4096)))
 	out.Bound = bound
 	if os.Getenv("C07_DEBUG_ALLOC") != "" {
 		fmt.Fprintf(os.Stderr, "ALLOC bytes=%d recs=%d longest=%d alloc=%d perbyte=%.1f\n", bytesRead, out.N, longest, out.Alloc, float64(out.Alloc)/float64(bytesRead+1))
@@ -231,6 +259,10 @@ func runParser(files map[string]string, cfg parserCfg, perRecord func(dns.RR)) (
 		return out, fmt.Errorf("allocated %d octets for %d octets of input and %d records (bound %d)", out.Alloc, bytesRead, out.N, bound)
 	}
 
+	// include nesting is bounded
+	if len(out.Opens) > maxOpens {
+		return out, fmt.Errorf("%d Open calls; with the nesting limit at most %d are possible for these files", len(out.Opens), maxOpens)
+	}
 	// include gate
 	if !cfg.Allowed && len(out.Opens) > 0 {
 		return out, fmt.Errorf("includes are not allowed but the include FS was opened: %q", out.Opens)
@@ -240,6 +272,12 @@ func runParser(files map[string]string, cfg parserCfg, perRecord func(dns.RR)) (
 	if out.Err != nil {
 		var pe *dns.ParseError
 		if !errors.As(out.Err, &pe) {
+			// a failure of the reader itself (for instance $INCLUDE of a directory of the
+			// include FS) is reported as it is; everything else must be a *dns.ParseError
+			var perr *fs.PathError
+			if errors.As(out.Err, &perr) && len(out.Opens) > 0 {
+				return out, nil
+			}
 			return out, fmt.Errorf("Err() is a %T, not a *dns.ParseError: %v", out.Err, out.Err)
 		}
 		txt := out.Err.Error()
